@@ -34,6 +34,8 @@ mod api;
 mod policy_client;
 mod router;
 mod server;
+#[cfg(feature = "__verif")]
+pub mod verif;
 
 pub use policy_client::MpcResult;
 pub use server::{Cancel, JwtConf, Server, ServerOpts};
